@@ -864,6 +864,34 @@ func main() {
 	fmt.Fprintf(&sb, "Definition edit_assignments : list (string * string) := [%s]%%string.\n", strings.Join(assigns, "; "))
 	fmt.Fprintf(&sb, "Definition edit_sections : list (string * string) := [%s]%%string.\n", strings.Join(sections, "; "))
 	fmt.Fprintf(&sb, "Definition edit_calls : list string := [%s]%%string.\n", strings.Join(calls, "; "))
+	// Sync: the ordered file-output calls; everything is written to the temporary file and renamed last
+	fsync := parse(filepath.Join(dir, "sync.go"))
+	var scalls []string
+	if sy := funcDecl(fsync, "Sync"); sy != nil {
+		ast.Inspect(sy.Body, func(n ast.Node) bool {
+			switch x := n.(type) {
+			case *ast.DeferStmt:
+				return false
+			case *ast.CallExpr:
+				name := nodeText(x.Fun)
+				switch name {
+				case "os.Create", "os.Rename", "outfile.Truncate", "outfile.Close", "oldFile.Close", "os.Remove", "os.WriteFile", "os.OpenFile", "outfile.Write", "outfile.WriteAt":
+					arg := ""
+					if len(x.Args) > 0 {
+						arg = nodeText(x.Args[0])
+					}
+					scalls = append(scalls, "\""+name+"<"+arg+">\"")
+				case "io.NewOffsetWriter":
+					scalls = append(scalls, "\"offsetwriter<"+nodeText(x.Args[0])+","+nodeText(x.Args[1])+">\"")
+				}
+			}
+			return true
+		})
+	} else {
+		gap("sync.go: func Sync not found")
+	}
+	fmt.Fprintf(&sb, "Definition sync_calls : list string := [%s]%%string.\n", strings.Join(scalls, "; "))
+
 	// headerToJson: the composite literal's fields
 	var hj []string
 	if fn := funcDecl(fdir, "headerToJson"); fn != nil {
